@@ -87,6 +87,10 @@ def step (kind : Kind) (s : SState) (op : Op) : Option (SState × Out) :=
   | .appendAll t => some (s.set t (appendAll kind (s.get t) (s.get (!t))), .unit)
   | .removeAll t => some (s.set t (removeAll (s.get t) (s.get (!t))), .unit)
   | .setValue t k v => some (s.set t (setValue (s.get t) k v), .unit)
+  | .assignSelf _ => some (s, .unit)
+  | .swapSelf _ => some (s, .unit)
+  | .appendSelf t => some (s.set t (appendAll kind (s.get t) (s.get t)), .unit)
+  | .removeSelf t => some (s.set t (removeAll (s.get t) (s.get t)), .unit)
   | .find t k => some (s, .onum ((lookup k (s.get t)).map Prod.fst))
   | .contains t k => some (s, .flag (decide (k ∈ keys (s.get t))))
   | .size t => some (s, .num (s.get t).length)
